@@ -10,12 +10,14 @@ fn free_port() -> u16 { std::net::TcpListener::bind("127.0.0.1:0").unwrap().loca
 #[test]
 fn vf_out_delete_all() {
     let (mut checked, mut bad) = (0u64, 0u64);
-    for (what, elsewhere) in [("started in the configuration's directory", false), ("started in another directory, configuration given with -f", true)] {
+    for (what, elsewhere, linked) in [("started in the configuration's directory", false, false), ("started in another directory, configuration given with -f", true, false),
+        ("with the output directory being a symbolic link to a directory kept elsewhere (a cache volume)", false, true)] {
         checked += 1;
         let td = tempfile::tempdir().unwrap();
         let proj = td.path().join("proj");
         let other = td.path().join("other");
         std::fs::create_dir_all(proj.join("t1/monorail/cmd")).unwrap();
+        if linked { std::fs::create_dir_all(td.path().join("volume/out")).unwrap(); std::os::unix::fs::symlink(td.path().join("volume/out"), proj.join("monorail-out")).unwrap(); }
         std::fs::create_dir_all(other.join("monorail-out/precious")).unwrap();
         std::fs::write(other.join("monorail-out/precious/file"), b"keep").unwrap();
         let script = proj.join("t1/monorail/cmd/hello.sh");
